@@ -30,7 +30,12 @@ META = {
              "crash point other than the first call of the operation; "
              "distinct_nontrivial counts distinct such scenarios plus "
              "distinct (accessor kind, operation, call site, errno / crash, "
-             "outcome) fault sites."),
+             "outcome) fault sites."
+             " Also: ENOENT for calls that name a path, 'partial write' (h"
+             'alf of the data stored, then ENOSPC / a short count), a retr'
+             'ied close(), HTTP 403/404/500/503 replies; cli_faults: every'
+             ' I/O call of the documented command-line steps x errno, a su'
+             'ccess status requires the fault-free destination.'),
     "trusted_base": ["vlib/faultfs.py: crash model = process killed between "
                      "(or inside) application-level write calls, earlier "
                      "closed files intact; self-checked on every scenario by "
